@@ -113,6 +113,30 @@ func doHarvest() {
 			hv.otherMsgs = append(hv.otherMsgs, ct)
 		}
 	}
+	// a complete earlier handshake of the victim (initiator) with an earlier responder session that had H's own key,
+	// recorded off the wire with the victim's first data message: replayed into a fresh responder it must not
+	// complete (the fresh session contributes fresh key material, so the old transcript is not this handshake's)
+	a, b = newSession(idV, true, tBase), newSession(idH, false, tBase)
+	m = a.Handshake(nil)
+	to = b
+	for i := 0; i < 6 && len(m) > 0; i++ {
+		if to == b { // only what the victim sent
+			hv.otherMsgs = append(hv.otherMsgs, m)
+		}
+		_, out, err := deliverRecycled(to, m, tBase)
+		if err != nil {
+			break
+		}
+		m = out
+		if to == b {
+			to = a
+		} else {
+			to = b
+		}
+	}
+	if ct, err := a.Send(nil, []byte("recorded-old-data-0123456789"), tBase); err == nil {
+		hv.otherMsgs = append(hv.otherMsgs, ct)
+	}
 }
 
 type c03world struct {
